@@ -62,6 +62,10 @@ func sameOrFresh[T any](res, src []T) bool { return true }
 // observable by executing code; reports true when executed.
 func freshArray[T any](s []T) bool { return true }
 
+// freshObject(p): p is nil or points to an object allocated during the call.
+// Not observable by executing code; reports true when executed.
+func freshObject[T any](p *T) bool { return true }
+
 // distinctArrays(a, b): a and b are backed by different arrays (so writing
 // through one, within its capacity, cannot change the other). Not observable
 // in general; when executed it compares the first elements' addresses.
